@@ -766,7 +766,8 @@ func entriesDesc(es []*diag.Context) string {
 
 func Spec() *mon.Spec {
 	return &mon.Spec{
-		ID: "C37", Level: "exploration",
+		ID:            "C37",
+		SpinViolation: true, Level: "exploration",
 		Rule: "phase contexts: a source of 0..12 lines (empty lines, with/without trailing newline, CR LF, multibyte and invalid bytes) and either every range of it (short sources) or 250 ranges biased to line boundaries; every field of diag.NewContext and the text of Show() are compared with a byte-loop reference written from the doc comments. " +
 			"phase errors: a generated multi-line program with one injected failure whose byte range the generator knows (fail form directly / inside nested blocks, lambdas, each / in a named function / in eval'd code / in a function of a module file / several in one pipeline; undefined variables; unclosed constructs and stray closers) is evaluated; every Context of the resulting parse errors, compilation errors and stack trace entries must agree with the reference for its own range, and the ranges must be the injected nodes; 3 damaged variants per program are parsed+compiled only. " +
 			"Non-trivial = source with >= 3 lines and a multibyte character (contexts) / every distinct generated program (errors).",
